@@ -75,8 +75,9 @@ ASSUMPTIONS = [
     'per_position=True base with T != num_domains is excluded from generation '
     '(T not in {1, D}: ValueError; T == 1 < D: result shape (D, D)); witnesses '
     'in replays/C05',
-    'masks are bool arrays; ModelEvaluator runs on the default (jit) '
-    'for_each_client backend (backends are the subject of C02)',
+    'masks are bool arrays or, in the model-level check, 0/1 arrays of an '
+    'integer dtype; ModelEvaluator runs on the default (jit) backend and, per '
+    'case, on the debug / pmap backends (backends as such are the subject of C02)',
 ]
 
 # for_each_client donates the (scalar) statistics; noise in the shard logs
@@ -389,7 +390,9 @@ def with_mask(case, feats, mask):
   """The batch as a user would pass it to evaluate_model."""
   if mask.all() and not case['mask_key']:
     return dict(feats)
-  return {**feats, MASK: mask}
+  # (the mask as the producer of the batch stored it: bool, or 0/1 in an
+  # integer dtype -- a mask read back from a file, built with np.ones)
+  return {**feats, MASK: mask.astype(case.get('mask_dtype', 'bool'))}
 
 
 def logit_span(case):
@@ -701,9 +704,11 @@ def run_model_paths(case):
     # the documented producer of padded batches (zero content, prefix mask,
     # final batch size from the bucket rule), over the examples in case order
     dataset = fedjax.ClientDataset({k: np.stack([e[k] for e in ex]) for k in ex[0]})
-    results['evaluate_model(padded_batch)'] = fedjax.evaluate_model(
-        model, None, dataset.padded_batch(
-            batch_size=pb['batch_size'], num_batch_size_buckets=pb['buckets']))
+    view = dataset.padded_batch(batch_size=pb['batch_size'], num_batch_size_buckets=pb['buckets'])
+    if pb['buckets'] % 2 == 0:
+      # the caller looked at the first batch of the view before evaluating it
+      next(iter(view), None)
+    results['evaluate_model(padded_batch)'] = fedjax.evaluate_model(model, None, view)
   if 'evaluator' in case['via']:
     eb = case.get('evaluator_backend', 'default')
     if eb == 'pmap' and (len({len(b) for b in case['batches']}) > 1 or
@@ -954,6 +959,7 @@ def model_case_strategy(draw, tier, force_empty=False):
   case['per_client_params'] = draw(st.booleans())
   case['as_generator'] = draw(st.booleans())
   case['pred_form'] = draw(st.sampled_from(['array', 'array', 'array', 'dict2', 'dict3']))
+  case['mask_dtype'] = draw(st.sampled_from(['bool', 'bool', 'int32', 'uint8']))
   if 'evaluator' in case['via']:
     pick = draw(st.integers(0, 5))
     if pick == 0:
@@ -1048,6 +1054,8 @@ def eval_labels(case):
       ls.append('same_names_other_metrics_model_evaluated_first')
     if case.get('pred_form', 'array') != 'array':
       ls.append('mapping_valued_prediction')
+    if case.get('mask_dtype', 'bool') != 'bool':
+      ls.append('mask_stored_as_0/1_integers')
     if case.get('evaluator_backend') == 'debug':
       ls.append('evaluator_on_debug_backend')
     if (case.get('evaluator_backend') == 'pmap' and len({len(b) for b in case['batches']}) <= 1
